@@ -13,6 +13,7 @@ import (
 	"sort"
 	"strings"
 	"sync"
+	"sync/atomic"
 	"time"
 
 	"verif/engine/smt"
@@ -31,6 +32,7 @@ type Config struct {
 	OnlyEntry  string
 	NoReplay   bool
 	Workers    int
+	Inner      int // parallel workers inside one entry
 	KeepGoing  bool
 	NoValidate bool
 	HarnessDir string // snapshot of <verif>/harness used by this run
@@ -523,15 +525,37 @@ func runEntry(cfg Config, prog *symex.Program, e entryInfo, findings []Finding) 
 		maxPaths = 100000
 		budget = 30 * time.Minute
 	}
-	router := smt.NewRouter(timeout)
-	router.Scope = e.Name + "!"
-	defer router.Close()
-	m := symex.NewMachine(prog, router)
-	m.Verbose = cfg.Verbose
-	m.Thorough = cfg.Tier == "thorough"
-	m.Prefix = e.Name + "!"
+	inner := cfg.Inner
+	if inner < 1 {
+		inner = 1
+	}
+	shared := &sync.Map{}
+	var routers []*smt.Router
+	var ms []*symex.Machine
+	for i := 0; i < inner; i++ {
+		r := smt.NewRouter(timeout)
+		r.Scope = e.Name + "!"
+		r.Shared = shared
+		defer r.Close()
+		mi := symex.NewMachine(prog, r)
+		mi.Verbose = cfg.Verbose
+		mi.Thorough = cfg.Tier == "thorough"
+		mi.Prefix = e.Name + "!"
+		routers = append(routers, r)
+		ms = append(ms, mi)
+	}
+	router, m := routers[0], ms[0]
 	prefix := m.Prefix
-	paths, complete := m.Explore(fn, maxPaths, budget)
+	paths, complete := symex.ExploreParallel(ms, fn, maxPaths, budget)
+	for _, mi := range ms[1:] {
+		m.UnknownBranches += mi.UnknownBranches
+		for k, n := range mi.HavocCalls {
+			m.HavocCalls[k] += n
+		}
+		for f := range mi.FuncsSeen {
+			m.FuncsSeen[f] = true
+		}
+	}
 	res.Paths = len(paths)
 	res.Complete = complete
 	if !complete {
@@ -553,6 +577,39 @@ func runEntry(cfg Config, prog *symex.Program, e entryInfo, findings []Finding) 
 	seenUnsupp := map[string]bool{}
 	deadline := t0.Add(budget + budget/2)
 	timedOut := false
+	if inner > 1 {
+		// decide the obligations in parallel first (sliced, memoised verdicts shared by the routers); the
+		// loop below then finds the unsat ones answered and only asks for models of the others
+		var wg sync.WaitGroup
+		next := int64(-1)
+		for _, r := range routers {
+			wg.Add(1)
+			go func(r *smt.Router) {
+				defer wg.Done()
+				for {
+					i := int(atomic.AddInt64(&next, 1))
+					if i >= len(paths) || time.Now().After(deadline) {
+						return
+					}
+					for _, ar := range paths[i].Asserts {
+						if lp := labelProp(ar.Label); lp != "" && lp != cfg.Property {
+							continue
+						}
+						q := append(append([]*smt.Term(nil), ar.PC...), smt.Not(ar.Cond))
+						if fs := myFindings[ar.Label]; len(fs) > 0 {
+							var regions []*smt.Term
+							for _, f := range fs {
+								regions = append(regions, regionTerm(f, prefix))
+							}
+							q = append(q, smt.Not(smt.Or(regions...)))
+						}
+						symex.WithCPU(func() { r.Check(q...) })
+					}
+				}
+			}(r)
+		}
+		wg.Wait()
+	}
 	for _, p := range paths {
 		if time.Now().After(deadline) {
 			timedOut = true
@@ -706,7 +763,15 @@ func runEntry(cfg Config, prog *symex.Program, e entryInfo, findings []Finding) 
 		res.Funcs = append(res.Funcs, funcDesc(prog, f))
 	}
 	sort.Strings(res.Funcs)
-	res.Queries, res.Unknowns, res.SolverSecs, res.SolverNames = router.Stats()
+	for _, r := range routers {
+		q, u, secs, names := r.Stats()
+		res.Queries += q
+		res.Unknowns += u
+		res.SolverSecs += secs
+		if r == router {
+			res.SolverNames = names
+		}
+	}
 	res.Wall = time.Since(t0).Seconds()
 	return res
 }
